@@ -13,8 +13,9 @@
 #define VP_SAMEDIM(A, B) ((A)->nrows == (B)->nrows && (A)->ncols == (B)->ncols)
 #define VP_GCELL0(A) VP_GCELL(A, 0)
 /* ghost pre-conditions: supplied destination -> block ghost readable; NULL destination -> cell ghost inside (nr,nc) */
+#define VP_GHOSTS_SANE (vg_i >= 0 && vg_i < (1 << 20) && vg_j >= 0 && vg_j < (1 << 20) && vg_r > -(1 << 20) && vg_r < (1 << 20) && vg_w > -(1 << 20) && vg_w < (1 << 20))
 #define VP_DSTGHOST(D, nr, nc)                                                                     \
-  ((D) != NULL ? (VP_GHOST_OK(D, vg_r, vg_w) && VP_GBIT_OK) : (vg_i >= 0 && vg_i < (nr) && vg_j >= 0 && vg_j < (nc)))
+  (VP_GHOSTS_SANE && ((D) != NULL ? (VP_GHOST_OK(D, vg_r, vg_w) && VP_GBIT_OK) : (vg_i < (nr) && vg_j < (nc))))
 #define VP_IS(D, R) ((D) != NULL && (R) == (D))
 
 /* ------------------------------------------------------------------ mzd_add / _mzd_add: C = A + B (entry-wise), aliasing allowed */
